@@ -1,0 +1,8 @@
+//go:build verif
+
+package header
+
+import "time"
+
+// VerifClockDrift exposes clockDrift to the verification harness (read-only).
+func VerifClockDrift() time.Duration { return clockDrift }
